@@ -39,6 +39,18 @@ func extraC02(c *Check) {
 			c.Gate(fa, rs.At, nthKey("release:nil-after-both", i+1), "success is reported only after both statements succeeded", p.NilErr("(*mysql.Node).SemiSyncDisable"))
 		}
 	})
+	c.Rule("C02.NOLOSS", func() {
+		// the one step of the single-fault statement's "every acknowledged transaction is present on that master" that is
+		// a gate of this procedure: nothing is promoted before the catch-up wait on it answered true without error —
+		// also when the promoted host already is the most recent one (it may hold the acknowledged tail only in its relay log)
+		P, target := promotionTarget(c)
+		fa := p.FA(P)
+		c.Gate(fa, target, "promotion:caught-up", "promotion is gated by the catch-up wait answering true, whichever host was chosen", func(l Lit) bool {
+			r := ResultOf(l.T, 0)
+			return l.Pos && r != nil && p.IsCall(r, fnWait)
+		})
+		c.Gate(fa, target, "promotion:catchup-noerr", "… and returning no error", p.NilErr(fnWait))
+	})
 	c.Rule("C02.FENCE-OLD", func() {
 		P, target := promotionTarget(c)
 		fa := p.FA(P)
